@@ -854,6 +854,40 @@ def sym_validate_custom(vc):
             expect_no_raise_or_same(vc, fk, paths)
 
 
+def sym_falsy_handler(vc):
+    """a custom handler is a callable OBJECT as well as a function; one that happens to be falsy when the step is built (an error
+    collector with __len__, still empty) is the handler all the same: only `None` stands for the default policy -- in validate,
+    and in schema_validator itself (set_type and load hand theirs on unchanged)"""
+    from pyvc.api import real_function, check, cover, Opaque, PyDict, row_stream
+    fk = vc.under_contract(P + 'validate.py', ['validate', '__init__'])
+
+    def collector(it):
+        hdl = Opaque('callable', 'error_collector')
+        hdl.attrs['__truth__'] = False          # len(collector) == 0 when the step is built
+        hdl.attrs['__callable__'] = True
+        hdl.attrs['__signature__'] = PyDict({p: p for p in ['res_name', 'row', 'i', 'e', 'field']})
+        return hdl
+
+    def thunk(it):
+        V = real_function(it, 'dataflows.processors.validate', 'validate')
+        hdl = collector(it)
+        v = it.call(V, [], dict(on_error=hdl))
+        check(it, 'a-falsy-handler-object-is-still-the-handler[validate]', v.attrs.get('on_error') is hdl)
+        rex = real_function(it, 'dataflows.base.schema_validator', 'raise_exception')
+        v0 = it.call(V, [], {})
+        w0 = v0.attrs.get('on_error')         # (the four-argument raise policy behind wrap_handler's adapter)
+        check(it, 'no-handler-means-the-raise-policy[validate]', getattr(w0, 'name', None) == 'func' and w0.env.lookup('on_error') is rex)
+    vc.explore(fk, thunk)
+    fk2 = vc.under_contract(P + 'set_type.py', ['set_type', '__init__'])
+
+    def thunk2(it):
+        ST = real_function(it, 'dataflows.processors.set_type', 'set_type')
+        hdl = collector(it)
+        st = it.call(ST, ['f'], dict(type='integer', on_error=hdl))
+        check(it, 'a-falsy-handler-object-is-still-the-handler[set_type]', st.attrs.get('on_error') is hdl)
+    vc.explore(fk2, thunk2)
+
+
 def sym_validate_failing_check(vc):
     """validate(<check>) with a check that RAISES (a comparison with a null, int('n/a'), a bug in the check): the exception is the
     step's failure -- it leaves the validator as it was raised, the error policy is not consulted and the row is not passed on
@@ -955,6 +989,7 @@ ITEMS = [
          P + 'set_type.py::set_type.process_datapackage'),
     Item('validate.custom', sym_validate_custom, [('differential', nat_validate)], P + 'validate.py::validate.rows_validator.func'),
     Item('validate.schema', sym_validate_with_schema, [], P + 'validate.py::validate.validate_with_schema.func'),
+    Item('handlers.falsy-object', sym_falsy_handler, [], P + 'validate.py::validate.__init__'),
     Item('validate.failing-check', sym_validate_failing_check, [], P + 'validate.py::validate.rows_validator.func'),
     Item('recorded-findings', None, [('bounded', KF.nat_findings_c14)], 'dataflows/base/schema_validator.py::schema_validator'),
 ]
